@@ -63,22 +63,28 @@ def clpAcct : String := "clp"
 def rowan : String := "rowan"
 
 structure St where
-  bank : AList Nat := []              -- key: account ++ "/" ++ denom
-  pools : AList Pool := []            -- key: sym ++ "_rowan"
-  lps : AList LP := []                -- key: sym ++ "_" ++ addr
+  bank : AList (AList Nat) := []      -- account ↦ denom ↦ amount
+  pools : AList Pool := []            -- key: sym ++ "_rowan" (store order of the pool prefix)
+  lps : AList (AList LP) := []        -- pool symbol ↦ address ↦ record (store order within a pool)
   buckets : AList Nat := []           -- key: denom
   accu : Nat := 0                     -- block-distribution accumulator (store key 0x0b)
   height : Int := 1
   params : Params := {}
   deriving Repr, Inhabited
 
-def bkey (acct denom : String) : String := acct ++ "/" ++ denom
 def poolKey (sym : String) : String := sym ++ "_rowan"
-def lpKey (sym addr : String) : String := sym ++ "_" ++ addr
 
-def St.bal (s : St) (acct denom : String) : Nat := (s.bank.get (bkey acct denom)).getD 0
+def St.bal (s : St) (acct denom : String) : Nat := (((s.bank.get acct).getD []).get denom).getD 0
 def St.setBal (s : St) (acct denom : String) (v : Nat) : St :=
-  { s with bank := s.bank.set (bkey acct denom) v }
+  { s with bank := s.bank.set acct (((s.bank.get acct).getD []).set denom v) }
+
+/-- the provider records of one pool, in store order -/
+def St.lpsOf (s : St) (sym : String) : AList LP := (s.lps.get sym).getD []
+def St.getLP (s : St) (sym addr : String) : Option LP := (s.lpsOf sym).get addr
+def St.setLP (s : St) (lp : LP) : St := { s with lps := s.lps.set lp.sym ((s.lpsOf lp.sym).set lp.addr lp) }
+def St.eraseLP (s : St) (sym addr : String) : St := { s with lps := s.lps.set sym ((s.lpsOf sym).erase addr) }
+def St.setPool (s : St) (p : Pool) : St := { s with pools := s.pools.set (poolKey p.sym) p }
+def St.getPool (s : St) (sym : String) : Option Pool := s.pools.get (poolKey sym)
 
 /-- failure of a message: an error return or a (recovered) panic — either way the transaction's
     writes are discarded -/
